@@ -69,6 +69,7 @@ def h_charge(eng, ff=0, ligand=0):
     q0, q1 = eng.real("q0"), eng.real("q1")
     eng.assume(And(q0 > -50, q0 < 50, q1 > -50, q1 < 50))
     w = flow.World(eng, "r", False, {}, [], charges=[q0, q1])
+    w.unassigned_last = eng.flag("some_atom_without_parameters")  # the integrality requirement does not depend on it
     opts = flow.symbolic_options(eng, model=dict(clean=False, assign_only=eng.bool("assign_only"), debump=True, opt=True, drop_water=False, neutraln=False, neutralc=False), formatting=dict(whitespace=False, keep_chain=False, include_header=False, ffout=0, pdb_output=0, apbs_input=0), fixed=dict(ff=ff, pka=0, ligand=ligand))
     eng.assume(And(opts["ph"] >= 0, opts["ph"] <= 14))
     exc = flow.run_driver(w, opts)
